@@ -174,6 +174,9 @@ def dry_runs():
     yield 'M3_copy', dict(P='ab', cut=0, D='cd', W=None, h0=True, a0=1, b0=3, h1=False, a1=0, b1=0, shape=1)
 
 
+PROBES = ['expect_core']      # representation probes (harness/probes.py) this harness depends on
+
+
 MANIFEST_ENTRY = {
     'level_text': 'Bounded symbolic verification of the real selection logic (searcher_string.search, '
                   'searcher_re.search, Expecter.do_search): for every window (<=6 chars, any code points), every '
